@@ -7,6 +7,7 @@
 package main
 
 import (
+	"encoding/json"
 	"fmt"
 
 	bp "ebuverif/internal/busprog"
@@ -141,6 +142,7 @@ func run(c *h.Check) {
 	for _, m := range lifecases() {
 		c.Explore(lifeScenario(m), bound, 0, false)
 	}
+	sizeSweep(c)
 	if c.Thorough() {
 		for _, p := range concurrent() {
 			q := *p
@@ -151,6 +153,16 @@ func run(c *h.Check) {
 }
 
 func replay(c *h.Check, rf *h.ReplayFile) []vrt.Violation {
+	var sz struct {
+		Size  *int `json:"size"`
+		Async bool `json:"async"`
+	}
+	if json.Unmarshal(rf.Ops, &sz) == nil && sz.Size != nil {
+		if msg := sizeCase(*sz.Size, evt.SubOpts{Once: true, Async: sz.Async}); msg != "" {
+			return []vrt.Violation{{Kind: "once-position", Sig: rf.Sig, Detail: msg}}
+		}
+		return nil
+	}
 	for _, p := range all(true) {
 		if p.Name == rf.Scenario || p.Name+"/unbounded-pruned" == rf.Scenario {
 			return h.ReplaySchedule(scenario(p), rf)
